@@ -32,7 +32,6 @@ PLAN = {
 # correspondence + oracle on every run and spelled out in MANIFEST.json / DESIGN.md)
 PARTIAL = {
     "C09": "the numeric message bound is proved for component and parent-link traffic (host and client writers); for entity and asset traffic the theorems are the no-echo invariants of C01 / C06, the count is an oracle check",
-    "C01": "convergence is proved for spawn epochs (with clients leaving); histories with despawns from arbitrary peers: step laws only",
 }
 
 TRUSTED = [
